@@ -41,7 +41,7 @@ RULE = ('ba: op sequences (set/del/merge_in, up to 30 ops) on a REAL BoundedAttr
         'environment contributed or the fallback fired (create/start). Distinct = distinct canonical JSON.')
 TRUSTED = ['threading.Lock; a writer parked at the lock has executed everything that precedes `with self._lock`',
            'bytes.decode (the case carries the decoding outcome to the model), float values opaque (repr)',
-           'urllib.parse.unquote re-modelled for %XX < 0x80; str.strip/split for ASCII white space',
+           'urllib.parse.unquote re-modelled for %XX < 0x80; str.strip (the ten ASCII white space characters incl. \\x1c-\\x1f) / split on AsciiPlain texts (no character >= 0x80, no %80+ escape); other texts: oracle only',
            'OrderedDict / dict.update iteration order']
 ASSUMPTIONS = ['an undecodable bytes *element* of a sequence is stored as None (as the code and its OpenTelemetry '
                'origin do); the statement does not single this case out',
@@ -232,8 +232,8 @@ ENV_ITEMS_UNMODELLED = ['n=%C3%A9', 'o=%FF', 'p=café', 'q= nbsp ']
 
 
 ENV_TOKENS = ['a', 'b', 'k', 'key', '1', '2', 'x y', ',', ',', ',', '=', '=', '=', '%', '%41', '%2C', '%3D', '%25', '%20',
-              '%7e', '%zz', '%4', ' ', '\t', '.', 'service.name', 'process.executable.name', '', '%%', '==', ',,']
-ENV_TOKENS_UNMODELLED = ['é', '%C3%A9', '%FF', '\u00a0', '%80']
+              '%7e', '%zz', '%4', ' ', '\t', '\x1c', '\x1f', '\x0b', '.', 'service.name', 'process.executable.name', '', '%%', '==', ',,']
+ENV_TOKENS_UNMODELLED = ['é', '%C3%A9', '%FF', '\u00a0', '%80', '\u2003']
 
 
 def g_agg(rng):
@@ -265,7 +265,8 @@ def g_envtext(rng):
 
 def env_unmodelled(env):
     t = env.get('DEEP_RESOURCE_ATTRIBUTES') or ''
-    return any(ord(c) > 127 or 0x1c <= ord(c) <= 0x1f for c in t) or bool(re.search(r'%[89a-fA-F][0-9a-fA-F]', t))
+    # = not AsciiPlain (Model/ResEnv.lean): a character >= 0x80 or a %XX escape with XX >= 0x80
+    return any(ord(c) > 127 for c in t) or bool(re.search(r'%[89a-fA-F][0-9a-fA-F]', t))
 
 
 def g_env(rng):
